@@ -398,6 +398,8 @@ func locCond(l Loc, a string) string {
 	switch {
 	case l.All:
 		return "true"
+	case l.AllTag != 0:
+		return fmt.Sprintf("(= (ftag %s) %d)", a, l.AllTag)
 	case l.RowsOf != "":
 		return fmt.Sprintf("(exists ((j Int)) (! (and (<= 0 j) (< j %d) (= %s (select %s (idx %s j)))) :pattern ((select %s (idx %s j)))))", l.RowsN, a, l.RowsHeap, l.RowsOf, l.RowsHeap, l.RowsOf)
 	case l.MapRow:
@@ -428,8 +430,50 @@ func (fx *FnCtx) loopPath(head *ssa.BasicBlock) *Path {
 	}
 	ep := fmt.Sprintf("L%d", n)
 	now := "now_" + ep
+	prevNow := "now_0"
+	// nested loop: a symbolic snapshot of the state at the start of the current iteration of the enclosing loop,
+	// so that invariants can say outer(e) and the enclosing loop's step/exit clauses are checked on paths that
+	// pass through this loop
+	if enc := fx.enclosingLoop(head); enc != nil {
+		ne := fx.loopHeads[enc]
+		eps := fmt.Sprintf("L%ds%d", ne, n)
+		nows := "now_" + eps
+		p.declare(nows, "Int")
+		p.assume(fmt.Sprintf("(>= %s now_0)", nows))
+		p.st = State{epoch: eps, epochNow: nows, heaps: map[string]string{}, now: nows, loopEpoch: true}
+		p.outerHead = enc
+		p.outerVars = map[string]Val{}
+		for _, in := range enc.Instrs {
+			phi, ok := in.(*ssa.Phi)
+			if !ok {
+				break
+			}
+			nm := p.fx.uniq(fmt.Sprintf("%s_%s", sanitize(phi.Comment+phi.Name()), eps))
+			p.declare(nm, fx.env.sortOf(phi.Type()))
+			v := Val{T: nm, Ty: phi.Type()}
+			p.vals[phi] = v
+			p.assumeWF(nm, phi.Type())
+			if phi.Comment != "" {
+				p.outerVars[phi.Comment] = v
+			}
+		}
+		if els := fx.loopSpec(ne); els != nil {
+			c := p.specCtx()
+			c.loop = enc
+			for _, inv := range els.Invs {
+				p.assumeClause(c, inv, fmt.Sprintf("loop %d invariant", ne))
+			}
+			if els.Decreases != nil {
+				if d, err := c.Eval(els.Decreases.E); err == nil {
+					p.outerDec0 = d.T
+				}
+			}
+		}
+		p.outerState = p.st.clone()
+		prevNow = nows
+	}
 	p.declare(now, "Int")
-	p.assume(fmt.Sprintf("(>= %s now_0)", now))
+	p.assume(fmt.Sprintf("(>= %s %s)", now, prevNow))
 	p.st = State{epoch: ep, epochNow: now, heaps: map[string]string{}, now: now, loopEpoch: true}
 	p.startLoop = head
 	p.trace = append(p.trace, -n)
@@ -568,10 +612,10 @@ func (p *Path) arriveAtLoop(head, pred *ssa.BasicBlock) {
 			}
 			q.oblige("inv."+lab, fmt.Sprintf("loop%d.%s", n, kind), inv.Src, t)
 		}
-		if back && p.startLoop == head {
+		if startVars, startState, ok := p.startOf(head); back && ok {
 			// two-state step clauses: x = value at the start of this iteration, next_x = value for the next one
 			vars := map[string]Val{}
-			for name, v0 := range p.loopStart {
+			for name, v0 := range startVars {
 				vars[name] = v0
 			}
 			for phi, v1 := range newVals {
@@ -582,7 +626,7 @@ func (p *Path) arriveAtLoop(head, pred *ssa.BasicBlock) {
 			sc := q.specCtx().with(vars)
 			sc.loop = head
 			sc.old = &q.entry
-			sc.st = &q.loopStartState
+			sc.st = startState
 			sc.cur = &q.st
 			for k, stc := range ls.Steps {
 				t, err := sc.EvalBool(stc.E)
@@ -597,7 +641,15 @@ func (p *Path) arriveAtLoop(head, pred *ssa.BasicBlock) {
 				q.oblige("step."+lab, fmt.Sprintf("loop%d", n), stc.Src, t)
 			}
 		}
-		if back && ls.Decreases != nil && p.startLoop == head && p.dec0 != "" {
+		dec0 := ""
+		if p.startLoop == head {
+			dec0 = p.dec0
+		} else if p.outerHead == head {
+			dec0 = p.outerDec0
+		}
+		if back && ls.Decreases != nil && dec0 != "" {
+			p.dec0, dec0 = dec0, p.dec0
+			defer func() { p.dec0 = dec0 }()
 			if d, err := c.Eval(ls.Decreases.E); err == nil {
 				ob := &Oblig{}
 				_ = ob
@@ -750,21 +802,68 @@ func (p *Path) checkLoopExit(site string, rvars map[string]Val) {
 	if p.startLoop == nil {
 		return
 	}
-	n := p.fx.loopHeads[p.startLoop]
+	p.checkLoopExitFor(p.startLoop, site, rvars)
+	if p.outerHead != nil {
+		p.checkLoopExitFor(p.outerHead, site, rvars)
+	}
+}
+
+// startOf: the snapshot of loop `head` at the start of its current iteration, if this path has one.
+func (p *Path) startOf(head *ssa.BasicBlock) (map[string]Val, *State, bool) {
+	if p.startLoop == head {
+		return p.loopStart, &p.loopStartState, true
+	}
+	if p.outerHead == head {
+		return p.outerVars, &p.outerState, true
+	}
+	return nil, nil, false
+}
+
+// enclosingLoop: the innermost loop head (other than head) that dominates head and is reachable from it.
+func (fx *FnCtx) enclosingLoop(head *ssa.BasicBlock) *ssa.BasicBlock {
+	reach := map[*ssa.BasicBlock]bool{}
+	var dfs func(b *ssa.BasicBlock)
+	dfs = func(b *ssa.BasicBlock) {
+		for _, s := range b.Succs {
+			if !reach[s] {
+				reach[s] = true
+				dfs(s)
+			}
+		}
+	}
+	dfs(head)
+	var best *ssa.BasicBlock
+	for _, h := range fx.loopList {
+		if h == head || !h.Dominates(head) || !reach[h] {
+			continue
+		}
+		if best == nil || best.Dominates(h) {
+			best = h
+		}
+	}
+	return best
+}
+
+func (p *Path) checkLoopExitFor(head *ssa.BasicBlock, site string, rvars map[string]Val) {
+	n := p.fx.loopHeads[head]
 	ls := p.fx.loopSpec(n)
 	if ls == nil {
+		return
+	}
+	startVars, startState, ok := p.startOf(head)
+	if !ok {
 		return
 	}
 	vars := map[string]Val{}
 	for k, v := range rvars {
 		vars[k] = v
 	}
-	for name, v0 := range p.loopStart {
+	for name, v0 := range startVars {
 		vars[name] = v0
 	}
 	c := p.specCtx().with(vars)
-	c.loop = p.startLoop
-	c.st = &p.loopStartState
+	c.loop = head
+	c.st = startState
 	c.cur = &p.st
 	for k, e := range ls.Exits {
 		t, err := c.EvalBool(e.E)
